@@ -38,7 +38,8 @@ impl Variable {
             VariableKind::RequestPath => Some(request.path_and_query_skipped.original.clone()),
             VariableKind::RequestRemoteAddress => request.remote_addr.map(|addr| addr.to_string()),
             VariableKind::RequestScheme => request.scheme.clone(),
-            VariableKind::RequestTime => request.created_at.map(|d| d.to_rfc2822()),
+            // Same text as `to_rfc2822()`, which panics for a year outside of 0..=9999
+            VariableKind::RequestTime => request.created_at.map(|d| d.format("%a, %-d %b %Y %H:%M:%S %z").to_string()),
             VariableKind::Marker(marker_name) => markers_captured.get(marker_name.as_str()).cloned(),
         }
         .unwrap_or_default();
